@@ -80,7 +80,7 @@ def leaves(names=("a", "b"), full=True):
 
 
 ARM_LEAVES = [("def", "a", "plain"), ("class", "a", "attr"), ("assign", "a", "assign"), ("assign", "a", "annassign"), ("import", "a", "from m import n"),
-              ("assign", "b", "assign"), ("def", "b", "doc"), ("unsupported", "del a")]
+              ("assign", "b", "assign"), ("def", "b", "doc"), ("unsupported", "del a"), ("chain",)]
 ARM_LEAVES_SMALL = [("def", "a", "plain"), ("assign", "a", "assign"), ("assign", "b", "assign")]
 
 
